@@ -242,7 +242,9 @@ def run(ctx):
     with vlib.Workdir("c10b") as wd2:
         reqs4, metas4 = [], []
         for j, pat in enumerate(PATTERNS):
-            for (a, b) in (("xx", "yy"), ("xx", "xx"), ("yy", "yy"), ("x_", "x_")):   # all of one length: positions stay comparable
+            # all of one length: positions stay comparable; the last two pairs: names that begin like the counters desugaring invents, which
+            # are ordinary names unless they have exactly the generated form (review of fe62dce: the passes skipped every name with that prefix)
+            for (a, b) in (("xx", "yy"), ("xx", "xx"), ("yy", "yy"), ("x_", "x_")) + ((("qnon_var_ab", "qnon_var_cd"), ("anon_var_ab", "anon_var_cd"), ("anon_var_1x", "anon_var_2_")) if j < 8 else ()):
                 text = "pragma circom 2.0.0;\ntemplate U() { signal input a; signal output b; b <== a; }\n" + pat % {"A": a, "B": b} + "\n"
                 p = wd2.write("pat%d_%s_%s.circom" % (j, a, b), text)
                 reqs4.append({"inputs": [p], "libs": [], "curve": "BN254"})
@@ -251,7 +253,7 @@ def run(ctx):
         for (j, a, b, text), rep in zip(metas4, vlib.analyze(reqs4)):
             key = collections.Counter((r["id"], tuple((l["start"], l["end"]) for l in r["primary"])) for r in vlib.reports_of(rep) if r["id"] not in ("CS0001",))
             stats["spelling-independence runs"] += 1
-            if (a, b) == ("xx", "yy"):
+            if (a, b) in (("xx", "yy"), ("qnon_var_ab", "qnon_var_cd")):
                 base[j] = (key, text)
             elif key != base[j][0]:
                 l1 += 1
